@@ -58,6 +58,8 @@ def install(eng):  # noqa: C901
         h = e.isinstance_handlers.get(type(x))
         if h is not None:
             return h(e, x, c)
+        if isinstance(x, sym.Abstract):
+            raise Unsupported(f'isinstance() of {type(x).__name__}')
         if isinstance(c, ClassVal):
             return isinstance(x, ObjVal) and c in x.cls.mro
         if isinstance(x, ObjVal):
